@@ -2,7 +2,8 @@
    Only statements, closed by `exact`, with Print Assumptions beneath each. *)
 From Coq Require Import ZArith NArith Bool List.
 From SV.Num Require Import Dec IntParse NumGrammar Range IntPrint RangeProofs IntParseProofs NumGrammarProofs
-  SkipNumberProofs IntPrintProofs IntPrintExact FloatCheck FloatSpec FloatCheckProofs FloatCheckSound.
+  SkipNumberProofs IntPrintProofs IntPrintExact FloatCheck FloatSpec FloatCheckProofs FloatCheckSound
+  FloatFmt FloatFmtProofs WriteDecDenotes.
 Import ListNotations.
 Open Scope Z_scope.
 
@@ -170,3 +171,44 @@ Proof.
   split; [exact wf_f64|]. split; [exact wf_f32|]. split; [right; vm_compute; split; discriminate|].
   split; vm_compute; reflexivity.
 Qed.
+
+(* ---- float printing: the notation part of f64toa.c (write_dec) ----------------------------------------
+   Given the decimal (sig, exp) chosen by the shortest-digits search, the 8/4/2-digit chunking through the
+   Digits table emits exactly the canonical digits of sig (format_integer) resp. the same digits up to trailing
+   zeros (format_significand, which skips the low eight digits when they are all zero), ctz10 is the digit count,
+   hence write_dec equals the same layout function over the canonical digit string (write_dec_ideal):
+   exponent form `d[.ddd]e(+|-)X` iff the scientific exponent X = ndigits + exp - 1 is < -6 or > 20 (the rule of
+   encoding/json: strconv 'e' format iff x < 1e-6 or x >= 1e21), otherwise plain decimal.
+   write_dec_denotes: the emitted text, read back by lit_decode (sign, mantissa m, exponent e), denotes exactly
+   sig * 10^exp (m * 10^a = sig * 10^b with e - a = exp - b), for every scientific exponent in (-1000, 1000).
+   The float32 chunking (format_integer_u32 / format_significand_f32) is only tied by runs. *)
+Theorem C19_format_integer_exact : forall sig, 1 <= sig < 10 ^ 17 -> format_integer sig = canon_dec sig.
+Proof. exact format_integer_exact. Qed.
+Print Assumptions C19_format_integer_exact.
+
+Theorem C19_format_significand_exact : forall sig, 1 <= sig < 10 ^ 17 ->
+  strip_trailing_zeros (format_significand sig) = strip_trailing_zeros (canon_dec sig).
+Proof. exact format_significand_strip. Qed.
+Print Assumptions C19_format_significand_exact.
+
+Theorem C19_write_dec_layout_partial : forall sig exp, 1 <= sig < 10 ^ 17 ->
+  write_dec_f64 sig exp = write_dec_ideal sig exp /\
+  ctz10 sig = Z.of_nat (length (canon_dec sig)).
+Proof. intros sig exp H. split; [apply write_dec_f64_ideal; exact H|apply ctz10_digits; exact H]. Qed.
+Print Assumptions C19_write_dec_layout_partial.
+
+Theorem C19_write_dec_denotes : forall sig exp, 1 <= sig < 10 ^ 17 ->
+  let sci := ctz10 sig + exp - 1 in
+  -1000 < sci < 1000 ->
+  denotes (write_dec_f64 sig exp) sig exp /\
+  uses_exponent (write_dec_f64 sig exp) = ((sci <? -6) || (20 <? sci)).
+Proof. exact write_dec_f64_denotes. Qed.
+Print Assumptions C19_write_dec_denotes.
+
+Example C19_write_dec_examples :
+  write_dec_f64 1 21 = [49;101;43;50;49]%N /\                         (* 1e+21 *)
+  write_dec_f64 1 20 = [49;48;48;48;48;48;48;48;48;48;48;48;48;48;48;48;48;48;48;48;48]%N /\
+  write_dec_f64 1 (-6) = [48;46;48;48;48;48;48;49]%N /\               (* 0.000001 *)
+  write_dec_f64 1 (-7) = [49;101;45;55]%N /\                          (* 1e-7 *)
+  write_dec_f64 15 (-1) = [49;46;53]%N /\ write_dec_f64 12345 (-12) = [49;46;50;51;52;53;101;45;56]%N.
+Proof. repeat split; reflexivity. Qed.
